@@ -563,7 +563,9 @@ def gen_long(rng):
                 rng.shuffle(grp)
             out += grp
         rows = out
-    return {'rows': rows, 'order': order, 'index': rng.choice(['range', 'shift', 'shuffle']), 'formula': rng.choice(['A*C(t)', 'C(t)*A', 'A + C(t) + A:C(t)'])}
+    return {'rows': rows, 'order': order, 'index': rng.choice(['range', 'shift', 'shuffle']), 'formula': rng.choice(['A*C(t)', 'C(t)*A', 'A + C(t) + A:C(t)']),
+            # subject identifiers are labels: 18-digit registry numbers (int64 beyond 2**53, consecutive) are as good as 1..n
+            'id_offset': rng.choice([0, 0, 10 ** 17])}
 
 
 def coq_pp(rows):
@@ -571,7 +573,8 @@ def coq_pp(rows):
 
 
 def long_frame(case):
-    df = pd.DataFrame([{'id': i, 'A': a, 't': t, 'd': float(ev)} for i, a, t, ev, w in case['rows']])
+    off = case.get('id_offset', 0)
+    df = pd.DataFrame([{'id': i + off, 'A': a, 't': t, 'd': float(ev)} for i, a, t, ev, w in case['rows']])
     n = len(df)
     if case['index'] == 'shift':
         df.index = range(500, 500 + n)
@@ -607,7 +610,7 @@ def surv_part(ctx, fails, cases=None):
                 gg = base.copy()
                 if trt != 'natural':
                     gg['A'] = 1 if trt == 'all' else 0
-                runs[trt] = {'ids': [int(x) for x in pdf['id']], 't': [int(x) for x in pdf['t']], 'pred': [float(x) for x in pdf['d']],
+                runs[trt] = {'ids': [int(x) - case.get('id_offset', 0) for x in pdf['id']], 't': [int(x) for x in pdf['t']], 'pred': [float(x) for x in pdf['d']],
                              'marg': {int(k): float(v) for k, v in g.marginal_outcome.items()},
                              'haz': [float(x) for x in np.asarray(g._outcome_model.predict(gg), dtype=float)]}
         except Exception as e:   # noqa
@@ -704,7 +707,7 @@ def surv_part(ctx, fails, cases=None):
             for trt in ('all', 'none', 'natural'):
                 g.fit(trt)
                 pdf = g.predicted_df
-                r = {'ids': [int(x) for x in pdf['id']], 't': [int(x) for x in pdf['t']], 'pred': [float(x) for x in pdf['d']]}
+                r = {'ids': [int(x) - case.get('id_offset', 0) for x in pdf['id']], 't': [int(x) for x in pdf['t']], 'pred': [float(x) for x in pdf['d']]}
                 ctx.programs += 1
                 ctx.count('surv:non-saturated')
                 check_monotone(fails, r, len(df), 'treatment=%r, model A + t + W' % trt, {'part': 'surv', 'case': case})
